@@ -14,7 +14,7 @@ the C string handling of the non-CONNECT branch, `urlAppendDomain`, the setters)
 The full statement is FALSE of the code that exists; the `_counterexample` theorems prove it on the model (and the differential
 run confirms each on the real parser), the `_partial` theorems state what does hold with the excluded region as a hypothesis.
 -/
-import SquidModel.Uri.Ports
+import SquidModel.Uri.Fixpoint
 
 namespace SquidModel.C30
 open SquidModel.Uri SquidModel.Gen.UriParse
@@ -237,5 +237,148 @@ example : accepts (parse cfg0 Ip.classify .other
 example : parse cfg0 Ip.classify .other
     ([104,116,116,112] ++ 58 :: 47 :: 47 :: ([101,120,97,109,112,108,101,46,99,111,109] ++ 58 :: [54,53,53,51,54] ++ [47,120]))
     = .reject "port-range" ∨ portMode ≠ 0 := by decide
+
+/-! ### re-parsing the canonical form -/
+
+/-- FULL STATEMENT (false, see the counterexamples below): parsing `absolute()` of an accepted URI again yields the same scheme,
+host, port and path.
+PROVED, for every configuration without `append_domain`, every address classifier and every non-CONNECT method: if the accepted
+URI has a host that is a name (not an address) of fewer than 255 plain octets (nothing that ends the host scan, no `@`, no `:`,
+not starting with `[`, not empty), a path made of `PathChars()` octets, and no user info that `absolute()` would print, then the
+canonical form is accepted again and scheme (protocol and image), host, port and path are the same. The scheme part is derived:
+what `uriParseScheme` accepted is read again as the same scheme from `image()`.
+Missing (each with a machine-checked counterexample or a known finding): paths with octets outside `PathChars()` — `?` first of all —
+which `absolutePath()` percent-encodes; bracketed or colon-carrying hosts; hosts cut at 255 octets; empty hosts; `append_domain`;
+numeric hosts (their text goes through libc); ftp/unknown-scheme user info. -/
+theorem reparse_canonical_partial (cfg : Config) (ip : Bytes → IpClass) (m : Method) (url : Bytes) (r : Parsed)
+    (h : parse cfg ip m url = .ok r)
+    (hm : m ≠ .connect) (hmode : portMode = 0 ∨ portMode = 1)
+    (hurn : r.proto ≠ PROTO_URN)
+    (hui : (r.proto = PROTO_FTP ∨ r.proto = PROTO_UNKNOWN) → r.userInfo = [])
+    (hname : r.numeric = false) (hplain : PlainHost r.host) (hshort : r.host.length < SQUIDHOSTNAMELEN - 1)
+    (hpath : ∀ c ∈ r.path, PATHCHARS.mem c = true) (hslash : r.path.head? = some 47)
+    (had : cfg.appendDomain = [])
+    (hlen : (absolute r).length ≤ MAX_URL - 1) :
+    ∃ r', parse cfg ip m (absolute r) = .ok r' ∧ sameTarget r r' := by
+  -- what the first parse established
+  rcases parse_scheme_of_ok h hm hplain.1 hurn with ⟨⟨rest0, hps⟩, hnone⟩
+  have hsch := parseScheme_roundtrip hps
+  rcases parse_ok_inv h with ⟨_, _, rfl⟩ | ⟨hu, _⟩ | ⟨proto, image, login, fh, port, path0, hf⟩
+  · exact absurd rfl hplain.1
+  · exact absurd hu hurn
+  rcases finish_ok hf with ⟨h4, p0, harg, hdd, hhead, hp1, hp2, hpw, hset, hproto, himage, hlogin, hport, hpath0⟩
+  rw [hname] at hset
+  have hhost : r.host = h4 := by
+    have := setHost_name hset
+    rw [this] at hshort ⊢
+    rw [List.length_take] at hshort
+    exact List.take_of_length_le (by omega)
+  have hnoUp : NoUpper r.host := by
+    rw [hhost]; exact hostArg_noUpper (by rw [had]; intro c hc; simp at hc) harg
+  have hlast : r.host.getLast? ≠ some 46 := by rw [hhost]; exact hostArg_getLast harg
+  have hchars : cfg.checkHostnames = true → r.host.all (hostnameSet cfg).mem = true := by
+    intro hc
+    have hall := finish_ok_chars hf hc
+    have harg' : hostArg cfg fh = some (stripTrailingDots (lowerStrip cfg fh)) := by
+      unfold hostArg appendDomain; simp [had]
+    rw [harg'] at harg
+    have h4eq : h4 = stripTrailingDots (lowerStrip cfg fh) := by simpa using harg.symm
+    rw [hhost, h4eq, List.all_eq_true]
+    intro c hc'
+    exact (List.all_eq_true.mp hall) c (stripTrailingDots_subset hc')
+  have hset' : setHost ip r.host = some (r.host, false) := by
+    have h2 := hset
+    rw [← hhost] at h2
+    exact h2
+  -- the port
+  obtain ⟨p, hpN⟩ : ∃ p : Nat, port = (p : Int) := ⟨port.toNat, by omega⟩
+  subst hpN
+  have hrport : r.port = some p := by simpa using hport
+  have hp1' : 1 ≤ p := by omega
+  have hp2' : p ≤ 65535 := by omega
+  have hdd' : hasDotDot r.host = false := by rw [hhost]; exact hdd
+  have hhead' : r.host.head? ≠ some 46 := by rw [hhost]; exact hhead
+  have htailok : TailOk r.path := by
+    cases hx : r.path with
+    | nil => trivial
+    | cons c rest =>
+      rw [hx] at hslash
+      have : c = 47 := by simpa using hslash
+      subst this
+      exact Or.inr (by decide)
+  have hfin := finish_again cfg ip r.proto r.image r.host r.path p hnoUp hplain.2.2 hchars had hlast hdd' hhead' hp1' hp2' hpath hset'
+  have hscan : ∀ c ∈ r.host, c ≠ 0 ∧ isHostDelim c = false := fun c hc =>
+    ⟨(plainOctet_spec (hplain.2.2 c hc)).1, (plainOctet_spec (hplain.2.2 c hc)).2.1⟩
+  have hcanon := absolute_simple r hurn hui hpath hslash
+  by_cases hdef : r.port = defaultPort r.proto
+  · -- no port printed
+    have hauth : authority r false = r.host := by
+      unfold authority; simp [hdef]
+    rw [hauth] at hcanon
+    rw [hcanon] at hlen ⊢
+    have hstar : r.image ++ 58 :: 47 :: 47 :: (r.host ++ r.path) ≠ [42] := by
+      intro he
+      have := congrArg List.length he
+      simp at this
+      omega
+    rw [parse_hier cfg ip m _ _ _ _ (by rw [had]; simpa using hlen) hm hstar (hsch _) hnone hurn,
+      parseHier_compose_noport cfg ip _ _ r.host r.path hplain htailok,
+      urlPath_compose r.host r.path hscan hslash hpath]
+    have hd : ((defaultPort r.proto).getD 0 : Nat) = p := by rw [← hdef, hrport]; rfl
+    rw [hd, hfin]
+    exact ⟨_, rfl, ⟨rfl, rfl, rfl, hrport, (pathOut_same r _ _ _ _).symm⟩⟩
+  · -- ":port" printed
+    have hauth : authority r false = r.host ++ 58 :: decimal p := by
+      unfold authority
+      have hdef' : ¬ (some p = defaultPort r.proto) := by rw [← hrport]; exact hdef
+      simp [hrport, hdef']
+    rw [hauth] at hcanon
+    have hcanon' : absolute r = r.image ++ 58 :: 47 :: 47 :: (r.host ++ 58 :: decimal p ++ r.path) := by
+      rw [hcanon]
+    rw [hcanon'] at hlen ⊢
+    have hstar : r.image ++ 58 :: 47 :: 47 :: (r.host ++ 58 :: decimal p ++ r.path) ≠ [42] := by
+      intro he
+      have := congrArg List.length he
+      simp at this
+      omega
+    have hdplain : ∀ c ∈ decimal p, plainOctet c = true := fun c hc => digit_plain ((decimal_spec p).2.1 c hc)
+    rw [parse_hier cfg ip m _ _ _ _ (by rw [had]; simpa using hlen) hm hstar (hsch _) hnone hurn,
+      parseHier_compose_port cfg ip _ _ r.host (decimal p) r.path hplain hdplain htailok,
+      convertPort_decimal p hp1' hp2' hmode]
+    simp only
+    have hup : urlPath (r.host ++ 58 :: decimal p ++ r.path) = r.path := by
+      have hauthscan : ∀ c ∈ r.host ++ 58 :: decimal p, c ≠ 0 ∧ isHostDelim c = false := by
+        intro c hc
+        rcases List.mem_append.mp hc with h1 | h1
+        · exact hscan c h1
+        · rcases List.mem_cons.mp h1 with rfl | h2
+          · exact ⟨by decide, by decide⟩
+          · exact ⟨(plainOctet_spec (hdplain c h2)).1, (plainOctet_spec (hdplain c h2)).2.1⟩
+      exact urlPath_compose _ r.path hauthscan hslash hpath
+    rw [hup, hfin]
+    exact ⟨_, rfl, ⟨rfl, rfl, rfl, hrport, (pathOut_same r _ _ _ _).symm⟩⟩
+
+
+/-- `http://h/a?b`: the canonical form is `http://h/a%3Fb`, whose path is not the path of the original (stated for a tree whose
+`PathChars()` lacks `?`, which is what the set dumped from the running code says today). -/
+theorem query_encoded_counterexample : PATHCHARS.mem 63 = false →
+    accepts (parse cfg0 Ip.classify .other [104,116,116,112,58,47,47,104,47,97,63,98])
+      (fun r => absolute r == [104,116,116,112,58,47,47,104,47,97,37,51,70,98] &&
+        accepts (parse cfg0 Ip.classify .other (absolute r)) (fun r' => pathOut r' != pathOut r)) = true := by decide
+
+/-- `http://[::]:8080/`: the brackets are stripped, `::` is the any-address and is kept as a name, the canonical form is
+`http://:::8080/`, which parses to host `:::8080`, port 80. -/
+theorem bracket_stripped_counterexample :
+    accepts (parse cfg0 Ip.classify .other [104,116,116,112,58,47,47,91,58,58,93,58,56,48,56,48,47])
+      (fun r => r.host == [58,58] && r.port == some 8080 &&
+        accepts (parse cfg0 Ip.classify .other (absolute r)) (fun r' => r'.host == [58,58,58,56,48,56,48] && r'.port == some 80)) = true := by
+  decide
+
+/-- non-vacuity: `HTTP://Example.COM:8080/p` is accepted, meets the hypotheses of `reparse_canonical_partial`, and its canonical
+form `http://example.com:8080/p` parses to the same target -/
+example : accepts (parse cfg0 Ip.classify .other [72,84,84,80,58,47,47,69,120,97,109,112,108,101,46,67,79,77,58,56,48,56,48,47,112])
+    (fun r => absolute r == [104,116,116,112,58,47,47,101,120,97,109,112,108,101,46,99,111,109,58,56,48,56,48,47,112] &&
+      !r.numeric && r.path.all PATHCHARS.mem && r.host.all plainOctet &&
+      accepts (parse cfg0 Ip.classify .other (absolute r)) (fun r' => decide (sameTarget r r'))) = true := by decide
 
 end SquidModel.C30
